@@ -217,8 +217,9 @@ class NsCodes(object):
 
 
 def ann_entry(a, owner, depth=0):
-    """one Annotation by value.  Bound-attribute annotations are read twice: through the annotation
-    (getattr(*a._value), what a.value returns) and directly from the object owning the annotation set."""
+    """one Annotation by value.  Bound-attribute annotations are read through the annotation
+    (getattr(*a._value), what a.value returns); those bound to the object that owns the annotation set
+    (self = True) are also read directly from that object (own)."""
     d = getattr(a, "__dict__", {})
     raw = d.get("_value")
     bound = bool(d.get("is_attribute"))
@@ -243,8 +244,9 @@ def ann_entry(a, owner, depth=0):
         sub = [ann_entry(x, a, depth + 1) for x in list(getattr(s2, "_item_list", []))]
     meta = _crc("|".join(_s(d.get(k)) for k in ("_name_prefix", "_namespace", "datatype_hint", "annotate_as_reference",
                                                 "is_hidden", "real_value_format_specifier")))
-    return {"name": _s(d.get("name")), "bound": bound, "attr": attr, "val": via_ann, "own": via_owner,
-            "meta": meta, "sub": sub}
+    own_bound = bool(bound and isinstance(raw, tuple) and len(raw) == 2 and raw[0] is owner)
+    return {"name": _s(d.get("name")), "bound": bound, "self": own_bound, "attr": attr, "val": via_ann,
+            "own": via_owner if own_bound else "", "meta": meta, "sub": sub}
 
 
 def _s_any(v):
